@@ -1,11 +1,14 @@
 CFG = {
-    "modules": ["Parsley.Props.C08", "Parsley.Lemmas.ConformsStab"],
+    "modules": ["Parsley.Props.C08", "Parsley.Lemmas.ConformsStab", "Parsley.Lemmas.TypeCheckSound", "Parsley.Props.C08Frag"],
     "theorems": [
         "Parsley.C08.conforms_perm_alternatives", "Parsley.C08.Conforms_perm_alternatives",
         "Parsley.C08.conforms_perm_keys", "Parsley.C08.conforms_antitone",
         "Parsley.C08.conforms_stabilises_partial", "Parsley.C08.conforms_stabilises",
         "Parsley.C08.Conforms_iff_conf_card", "Parsley.C08.gfp_eq_conf_card", "Parsley.C08.gfp_iff_Conforms",
-        "Parsley.C08.machine_eq_conforms_partial",
+        "Parsley.C08.machine_eq_conforms_F1", "Parsley.C08.machine_eq_conforms_F1_fuel", "Parsley.C08.machine_eq_oracle_F1",
+        "Parsley.TC.Sound.checkType_F1", "Parsley.C08.shipped_namedictionary_correct",
+        "Parsley.C08.machine_eq_conforms_leaf", "Parsley.C08.machine_eq_conforms_partial",
+        "Parsley.C08.F1_fails_for_orig_witness", "Parsley.C08.shared_alternative_leak_witness",
         "Parsley.C08.memo_leak_witness", "Parsley.C08.disjunct_attrs_dropped_witness",
         "Parsley.C08.named_disjunct_witness", "Parsley.C08.selfref_not_null_witness",
         "Parsley.C08.memo_ignores_predicate_witness", "Parsley.C08.any_entry_skips_pred_witness",
@@ -13,21 +16,27 @@ CFG = {
     ],
     "partial": {
         "Parsley.C08.machine_eq_conforms_partial":
-            "machine verdict (code as it is) = declarative verdict is PROVED on the leaf fragment: every graph, EVERY object "
-            "(references incl. chains, undefined and cyclic ones; compound objects) against any/primitive checks with ANY "
-            "predicate and ANY indirection requirement; array/dictionary/stream/disjunction/named nodes are covered by the "
-            "correspondence run and the bounded-exhaustive oracle search only (the oracle itself is proved to decide Conforms: "
-            "gfp_iff_Conforms); with disjunctions the machine is known to differ from the specification (memo leak, "
-            "known_findings.json)",
+            "machine verdict (code as it is, Fix.tree, run with the proved work bound) = declarative verdict is PROVED on FRAGMENT F1 "
+            "(Frag.inF1, decidable, Spec/TypeCheckFrag.lean: among the checks reachable from the specification no disjunction, no "
+            "dangling name, no Any-typed element/entry with an indirect requirement but no predicate): EVERY graph (reference chains, "
+            "undefined and cyclic references), EVERY object, arrays, heterogeneous arrays, dictionaries with required/optional/forbidden "
+            "keys and wildcard entry, streams, named RECURSIVE types, predicates and indirect requirements on every node "
+            "(machine_eq_conforms_F1; = the judge's oracle: machine_eq_oracle_F1). NOT proved: specifications with a reachable "
+            "disjunction. There the statement is false for the code as it is (memo leak: memo_leak_witness, and already with leaf "
+            "alternatives shared_alternative_leak_witness); the fragment F2 on which it is conjectured to hold (Frag.inF2: every "
+            "alternative a leaf check without indirect requirement of its own, pairwise different, and PRIVATE = occurring nowhere else "
+            "among the reachable checks) is stated and enforced by the judge on every case (a disagreement inside F1/F2 is reported as "
+            "f1-theorem-violated / f2-conjecture-violated, never as a known finding) but not proved; Any-typed entries with a bare "
+            "indirect requirement are decided wrongly (any_entry_skips_indirect_witness). False for Fix.orig (F1_fails_for_orig_witness)",
     },
     "n": {"quick": 3000, "thorough": 60000},
     "exhaustive": {"quick": False, "thorough": True},
     "shrink": False,
-    "rule": "corpus (every section-4 defect, the witnesses, cycles through a disjunction-typed edge); exhaustive small: every one/two-level specification over a menu "
+    "rule": "corpus (every section-4 defect, the witnesses, cycles through a disjunction-typed edge; fragment_f1.case: sized arrays too long/short, the leaf-alternative memo leaks, a recursive type on a cyclic graph); exhaustive small: every one/two-level specification over a menu "
             "of 9 leaf checks (5 in quick) x 39 objects over a 4-object graph with sharing, equal duplicates, an undefined and a "
             "self reference; random: specs of depth <= 3 from all constructors (named recursive types, predicates, indirect "
             "requirements) x graphs of <= 3 random objects + objects fitted to the spec (60%) or random (40%); non-trivial = "
-            "compound specification or compound/reference object; + n/10 cyclic container graphs whose cycle passes through a "
+            "compound specification or compound/reference object; objects fitted to a sized array are one element too long or too short one time in four; the judge evaluates the fragment predicates Frag.inF1/inF2 on every disagreement of the tree configuration (inside a fragment it is a violation, never a known finding; quick tier: 5134 of 10926 generated cases lie in F1, 4294 of them with a compound specification, 1721 cases with a disjunction lie in F2); + n/10 cyclic container graphs whose cycle passes through a "
             "disjunction-typed edge (kids typed leaf|node|tmpl by name)",
     "trusted_base": COMMON_TB + [
         "modelled, not verified: BTreeSet/BTreeMap/VecDeque/Rc semantics (memo as a list with the derived structural equality; "
@@ -49,8 +58,11 @@ LEVEL = {
     "text": "Machine-checked: order-independence of alternatives and of dictionary entries for the declarative conformance relation "
             "(all specs/objects/depths), monotonicity of its unfolding chain and stabilisation within |pairs| levels on the finite "
             "universe of a case (conforms_stabilises), hence the executable oracle of the judge decides Conforms exactly "
-            "(gfp_iff_Conforms); machine = specification on the leaf fragment with predicates, indirection requirements and "
-            "arbitrary reference chains (partial), and nine witness theorems. The model mirrors get_next_check/unwind/push_checks/return_check, "
+            "(gfp_iff_Conforms); machine = specification for ALL graphs and objects on fragment F1 = every specification without a reachable "
+            "disjunction (arrays, heterogeneous arrays, dictionaries, wildcard entries, streams, recursive named types, predicates, "
+            "indirect requirements; machine_eq_conforms_F1, proof by the invariant memo + pending closed under obligations, "
+            "Lemmas/TypeCheckSound.lean) -- partial: with disjunctions only the conjectured fragment F2 is stated and tested -- and eleven "
+            "witness theorems. The model mirrors get_next_check/unwind/push_checks/return_check, "
             "the memo and every per-type case, one flag per defect; it agrees with the real code on verdict and error kind on every "
             "generated case. Eleven defects were found; nine are repaired (commits C08-01..09 in /repo), two remain as known findings "
             "(memo leak across alternatives of a disjunction; Any-typed entry with an indirect requirement skipped, asserted by a "
